@@ -1,6 +1,7 @@
 // driver: C03 (object lifetime).  The ONLY hand-written C++ in the proof are the special members of the instrumented element
 // types below; they do nothing but report to the ghost hooks g_ctor/g_dtor/g_use, which are declared and NOT defined (EXTERNAL
 // in the lowered C; the harness defines them over a ghost liveness registry).  The second argument is the type tag.
+#include <etl/algorithm.hpp>
 #include <etl/vector.hpp>
 #include <etl/optional.hpp>
 #include <etl/variant.hpp>
@@ -275,4 +276,133 @@ VF_E void tvc_resize_x(VC& v, size_type n, TC const& x) { v.resize(n, x); }
 VF_E void tvc_copy_ctor(VC* out, VC const& o) { new (out) VC(o); }
 VF_E void tvc_copy_assign(VC& a, VC const& b) { a = b; }
 VF_E void tvc_dtor(VC& v) { v.~VC(); }
+
+// ---- element access of the NON-TRIVIAL instantiations (C05: wrong-state access reaches the handler; valid access addresses the element)
+VF_E T* tv_back(V& v) { return &v.back(); }
+VF_E T const* tv_cback(V const& v) { return &v.back(); }
+VF_E T* tv_front(V& v) { return &v.front(); }
+VF_E T const* tv_cfront(V const& v) { return &v.front(); }
+VF_E T* tv_index(V& v, size_type i) { return &v[i]; }
+VF_E T const* tv_cindex(V const& v, size_type i) { return &v[i]; }
+VF_E T* ti_back(IV& v) { return &v.back(); }
+VF_E T const* ti_cback(IV const& v) { return &v.back(); }
+VF_E T* ti_front(IV& v) { return &v.front(); }
+VF_E T const* ti_cfront(IV const& v) { return &v.front(); }
+VF_E T* ti_index(IV& v, size_type i) { return &v[i]; }
+VF_E T const* ti_cindex(IV const& v, size_type i) { return &v[i]; }
+VF_E T* tk_top(ST& s) { return &s.top(); }
+VF_E T const* tk_ctop(ST const& s) { return &s.top(); }
+VF_E T const* to_cderef(O const& a) { return &*a; }
+VF_E T* to_deref_rv(O& a) { T&& r = *etl::move(a); return &r; }
+VF_E T const* to_cderef_rv(O const& a) { T const&& r = *etl::move(a); return &r; }
+VF_E T* tx_deref(X& a) { return &*a; }
+VF_E T const* tx_cderef(X const& a) { return &*a; }
+VF_E T* tx_deref_rv(X& a) { T&& r = *etl::move(a); return &r; }
+VF_E T const* tx_cderef_rv(X const& a) { T const&& r = *etl::move(a); return &r; }
+VF_E T2 const* tx_cerror(X const& a) { return &a.error(); }
+VF_E T2* tx_error_rv(X& a) { T2&& r = etl::move(a).error(); return &r; }
+VF_E T2 const* tx_cerror_rv(X const& a) { T2 const&& r = etl::move(a).error(); return &r; }
+#define VF_W_ACCESS(I)                                                                                                 \
+    VF_E void const* tw_uget_##I(W& v) { return &etl::unchecked_get<I>(v); }                                           \
+    VF_E void const* tw_cuget_##I(W const& v) { return &etl::unchecked_get<I>(v); }                                    \
+    VF_E void const* tw_uget_rv_##I(W& v) { auto&& r = etl::unchecked_get<I>(etl::move(v)); return &r; }               \
+    VF_E void const* tw_cuget_rv_##I(W const& v) { auto&& r = etl::unchecked_get<I>(etl::move(v)); return &r; }        \
+    VF_E void const* tw_sub_##I(W& v) { return &v[etl::index_v<I>]; }                                                  \
+    VF_E void const* tw_csub_##I(W const& v) { return &v[etl::index_v<I>]; }                                           \
+    VF_E void const* tw_sub_rv_##I(W& v) { auto&& r = etl::move(v)[etl::index_v<I>]; return &r; }                      \
+    VF_E void const* tw_csub_rv_##I(W const& v) { auto&& r = etl::move(v)[etl::index_v<I>]; return &r; }
+VF_W_ACCESS(0)
+VF_W_ACCESS(1)
+VF_W_ACCESS(2)
+
+// ---- Handle: an ownership-transferring element.  Move construction AND move assignment take the payload and mark the source (-1)
+// unconditionally, so a SELF-move-assignment loses the payload (MoveAssignable only has to work for distinct objects; std::remove_if,
+// std::rotate, vector::erase/insert never self-move).  The destructor releases the payload (-2), so "destroy, then construct from the
+// dead object" is visible in the VALUE and not only in the liveness registry.
+struct Handle {
+    id_type id;
+    explicit Handle(id_type i) noexcept : id(i) { g_ctor(this, 6); }
+    Handle() noexcept : id(0) { g_ctor(this, 6); }
+    ~Handle() { g_dtor(this, 6); id = -2; }
+    Handle(Handle const& o) noexcept : id(o.id) { g_use(&o, 6); g_ctor(this, 6); }
+    auto operator=(Handle const& o) noexcept -> Handle& { g_use(this, 6); g_use(&o, 6); id = o.id; return *this; }
+    Handle(Handle&& o) noexcept : id(o.id) { g_use(&o, 6); g_ctor(this, 6); o.id = -1; }
+    auto operator=(Handle&& o) noexcept -> Handle& { g_use(this, 6); g_use(&o, 6); id = o.id; o.id = -1; return *this; }
+    friend auto operator==(Handle const& a, Handle const& b) noexcept -> bool { g_use(&a, 6); g_use(&b, 6); return a.id == b.id; }
+    friend auto operator<(Handle const& a, Handle const& b) noexcept -> bool { g_use(&a, 6); g_use(&b, 6); return a.id < b.id; }
+};
+static_assert(!etl::is_trivial_v<Handle>);
+using H = Handle;
+// an arbitrary predicate over the low three bits of the payload
+struct MaskPred { unsigned char mask; auto operator()(H const& h) const noexcept -> bool { g_use(&h, 6); return ((mask >> (h.id & 7)) & 1) != 0; } };
+using VH = etl::static_vector<H, VF_N>;
+VF_E void th_dtor(VH& v) { v.~VH(); }
+VF_E void th_push_back(VH& v, H const& x) { v.push_back(x); }
+VF_E void th_push_back_lv(VH& v, H& x) { v.push_back(x); }
+VF_E void th_push_back_rv(VH& v, H& x) { v.push_back(etl::move(x)); }
+VF_E void th_emplace_back(VH& v, id_type i) { v.emplace_back(i); }
+VF_E void th_emplace_back_copy(VH& v, H const& x) { v.emplace_back(x); }
+VF_E void th_pop_back(VH& v) { v.pop_back(); }
+VF_E H* th_insert(VH& v, H const* pos, H const& x) { return v.insert(pos, x); }
+VF_E H* th_insert_rv(VH& v, H const* pos, H& x) { return v.insert(pos, etl::move(x)); }
+VF_E H* th_emplace(VH& v, H const* pos, id_type i) { return v.emplace(pos, i); }
+VF_E H* th_emplace_copy(VH& v, H const* pos, H const& x) { return v.emplace(pos, x); }
+VF_E H* th_insert_n(VH& v, H const* pos, size_type n, H const& x) { return v.insert(pos, n, x); }
+VF_E H* th_insert_range(VH& v, H const* pos, H const* f, H const* l) { return v.insert(pos, f, l); }
+VF_E H* th_erase(VH& v, H const* pos) { return v.erase(pos); }
+VF_E H* th_erase_range(VH& v, H const* f, H const* l) { return v.erase(f, l); }
+VF_E void th_resize(VH& v, size_type n) { v.resize(n); }
+VF_E void th_resize_x(VH& v, size_type n, H const& x) { v.resize(n, x); }
+VF_E void th_assign_n(VH& v, size_type n, H const& x) { v.assign(n, x); }
+VF_E void th_assign_range(VH& v, H const* f, H const* l) { v.assign(f, l); }
+VF_E void th_copy_assign(VH& a, VH const& b) { a = b; }
+VF_E void th_move_assign(VH& a, VH& b) { a = etl::move(b); }
+VF_E void th_copy_ctor(VH* out, VH const& o) { new (out) VH(o); }
+VF_E void th_move_ctor(VH* out, VH& o) { new (out) VH(etl::move(o)); }
+VF_E void th_swap(VH& a, VH& b) { a.swap(b); }
+VF_E void th_swap_free(VH& a, VH& b) { swap(a, b); }
+VF_E size_type th_erase_value(VH& v, H const& x) { return etl::erase(v, x); }
+VF_E size_type th_erase_if(VH& v, unsigned char mask) { return etl::erase_if(v, MaskPred{mask}); }
+
+// ---- optional<Handle>, variant<int,Handle,Tracked2>, expected<Handle,Tracked2>: value assignment, also from a reference to the own value
+using OH = etl::optional<H>;
+VF_E void tho_dtor(OH& a) { a.~OH(); }
+VF_E void tho_assign_value(OH& a, H const& x) { a = x; }        // U = Handle const&
+VF_E void tho_assign_value_lv(OH& a, H& x) { a = x; }           // U = Handle&
+VF_E void tho_assign_value_rv(OH& a, H& x) { a = etl::move(x); }
+VF_E void tho_assign_deref(OH& a) { a = *a; }                   // the spelling `o = *o`
+VF_E void tho_copy_assign(OH& a, OH const& b) { a = b; }
+VF_E void tho_move_assign(OH& a, OH& b) { a = etl::move(b); }
+VF_E H* tho_emplace(OH& a, id_type i) { return &a.emplace(i); }
+VF_E void tho_swap(OH& a, OH& b) { a.swap(b); }
+using WH = etl::variant<int, H, T2>;
+VF_E void twh_dtor(WH& a) { a.~WH(); }
+VF_E void twh_assign_int(WH& a, int const& i) { a = i; }
+VF_E void twh_assign_h(WH& a, H const& x) { a = x; }
+VF_E void twh_assign_h_lv(WH& a, H& x) { a = x; }
+VF_E void twh_assign_h_rv(WH& a, H& x) { a = etl::move(x); }
+VF_E void twh_assign_t2(WH& a, T2 const& x) { a = x; }
+VF_E void twh_copy_assign(WH& a, WH const& b) { a = b; }
+VF_E void twh_move_assign(WH& a, WH& b) { a = etl::move(b); }
+VF_E void twh_swap(WH& a, WH& b) { etl::swap(a, b); }
+using XH = etl::expected<H, T2>;
+VF_E void txh_dtor(XH& a) { a.~XH(); }
+VF_E void txh_copy_assign(XH& a, XH const& b) { a = b; }
+VF_E void txh_move_assign(XH& a, XH& b) { a = etl::move(b); }
+VF_E H* txh_emplace(XH& a, id_type i) { return &a.emplace(i); }
+VF_E void txh_swap(XH& a, XH& b) { etl::swap(a, b); }
+
+// ---- the element-moving algorithms over a range of Handles (remove_if is what erase/erase_if run; rotate what insert runs)
+VF_E H* tha_remove(H* f, H* l, H const& x) { return etl::remove(f, l, x); }
+VF_E H* tha_remove_if(H* f, H* l, unsigned char mask) { return etl::remove_if(f, l, MaskPred{mask}); }
+VF_E H* tha_unique(H* f, H* l) { return etl::unique(f, l); }
+VF_E H* tha_rotate(H* f, H* m, H* l) { return etl::rotate(f, m, l); }
+VF_E H* tha_shift_left(H* f, H* l, long n) { return etl::shift_left(f, l, n); }
+VF_E H* tha_shift_right(H* f, H* l, long n) { return etl::shift_right(f, l, n); }
+VF_E H* tha_move(H* f, H* l, H* d) { return etl::move(f, l, d); }
+VF_E H* tha_move_backward(H* f, H* l, H* d) { return etl::move_backward(f, l, d); }
+// aliasing arguments at the existing Tracked instantiations of inplace_vector and stack
+VF_E T* ti_try_emplace_back_copy(IV& v, T const& x) { return v.try_emplace_back(x); }
+VF_E T* ti_unchecked_emplace_back_copy(IV& v, T const& x) { return &v.unchecked_emplace_back(x); }
+VF_E void tk_emplace_copy(ST& s, T const& x) { s.emplace(x); }
 }
